@@ -67,14 +67,24 @@ def key_canonicity(rep: Report, prog: Program) -> None:
         new = prog.func(f"{cls}.__new__")
         # the expression used as intern key: subscript / membership operand / setdefault argument on cls._known
         key_exprs: List[ast.AST] = []
+        tables = {"cls._known"} | {n.targets[0].id for n in ast.walk(new.node) if isinstance(n, ast.Assign) and len(n.targets) == 1
+                                   and isinstance(n.targets[0], ast.Name) and ast.unparse(n.value).endswith("._known")}
+
+        def is_table(e: ast.AST) -> bool:
+            return ast.unparse(e) in tables or ast.unparse(e).endswith("._known")
         for n in ast.walk(new.node):
-            if isinstance(n, ast.Subscript) and ast.unparse(n.value).endswith("._known"):
+            if isinstance(n, ast.Dict):
+                # {**known, key: self}: a rebuilt table
+                for k, v in zip(n.keys, n.values):
+                    if k is not None and any(kk is None and is_table(vv) for kk, vv in zip(n.keys, n.values)):
+                        key_exprs.append(k)
+            if isinstance(n, ast.Subscript) and is_table(n.value):
                 key_exprs.append(n.slice)
             elif isinstance(n, ast.Compare) and len(n.ops) == 1 and isinstance(n.ops[0], (ast.In, ast.NotIn)) \
-                    and ast.unparse(n.comparators[0]).endswith("._known"):
+                    and is_table(n.comparators[0]):
                 key_exprs.append(n.left)
             elif isinstance(n, ast.Call) and isinstance(n.func, ast.Attribute) and n.func.attr in ("setdefault", "get") \
-                    and ast.unparse(n.func.value).endswith("._known") and n.args:
+                    and is_table(n.func.value) and n.args:
                 key_exprs.append(n.args[0])
         if not key_exprs:
             raise AnalysisError(f"{cls}.__new__: no use of cls._known found (anchor moved)")
